@@ -567,6 +567,12 @@ def core_option_sets():
     ]
 
 
+def perm_option_sets():
+    """The eliminating passes alone and together: used where only the order of the equation list varies."""
+    c = core_option_sets()
+    return [c[1], c[2], c[3], c[5], c[8]]
+
+
 def plan(tier):
     """List of (Spec, option-set list name).  Complete within the bounds stated in the checks' rule text."""
     n = 3 if tier == "quick" else 4
@@ -588,7 +594,12 @@ def plan(tier):
                     for f0 in ("a-last", "mixed"):
                         every_order = f0 == "a-last" and (d == deps[0] or (tier == "thorough" and d == deps[1]))
                         for pm in allperms if every_order else [ident, rev]:
-                            sets = "near" if pm == ident or (tier == "thorough" and pm == rev) else "core"
+                            if tier == "thorough":
+                                sets = "near" if pm in (ident, rev) else "core"
+                            elif pm == ident:
+                                sets = "near" if d == deps[0] else "core"
+                            else:
+                                sets = "core" if pm == rev else "perm"
                             out.append((Spec(forms, d, f0, pm), sets))
     # (B) 2 special forms: every pair of positions x pair of forms
     for pos in itertools.combinations(range(n), 2):
@@ -602,7 +613,7 @@ def plan(tier):
                     if corepair and pm in (ident, rev):
                         sets = "near" if tier == "quick" else "wide"
                     else:
-                        sets = "core"
+                        sets = "core" if tier == "thorough" else "perm"
                     out.append((Spec(forms, d, "a-last", pm), sets))
     # (C) full-length chains over the core alias / constant / factor forms
     for fs in itertools.product(CORE_FORMS, repeat=n):
@@ -625,4 +636,4 @@ def plan(tier):
 
 
 def option_set_table():
-    return {"core": core_option_sets(), "near": option_sets(1), "wide": option_sets(2)}
+    return {"core": core_option_sets(), "perm": perm_option_sets(), "near": option_sets(1), "wide": option_sets(2)}
